@@ -369,7 +369,14 @@ func (runInfo *runInfoStruct) invokeMemberExpr(expr *ast.MemberExpr) {
 	case reflect.Struct:
 		field, found := runInfo.rv.Type().FieldByName(expr.Name)
 		if found {
-			runInfo.rv = runInfo.rv.FieldByIndex(field.Index)
+			fieldValue := runInfo.rv.FieldByIndex(field.Index)
+			if !fieldValue.CanInterface() {
+				// unexported field: reflect refuses to hand out its value
+				runInfo.err = newStringError(expr, "no member named '"+expr.Name+"' for struct")
+				runInfo.rv = nilValue
+				return
+			}
+			runInfo.rv = fieldValue
 			return
 		}
 		if runInfo.rv.CanAddr() {
